@@ -340,7 +340,7 @@ Proof. vm_compute. repeat split. now left. Qed.
    goroutines leave the smaller block maximum in MaxLabel[v]; the next restart reloads that *)
 Lemma label_reload_refuted :
   let evs := [LCrash; LRestart; LIngest 1 [10; 20]; LBgRead 0; LBgRead 1; LBgWrite 1; LBgWrite 0; LCrash; LRestart] in
-  let s := fst (lrun l_fresh evs) in
+  let s := fst (lrun l_fresh_unrepaired evs) in
   settled s = true /\ In 20 (l_present s) /\ snd (lstep s (LAlloc 1 1)) = Some (11, 11).
 Proof. vm_compute. repeat split. right. now left. Qed.
 
@@ -440,3 +440,79 @@ Lemma version_id_reissued_after_crash :
   | _ => False
   end.
 Proof. vm_compute. repeat split. Qed.
+
+(* ---- ingests that finish their max-label updates before the acknowledgement ---- *)
+Lemma lrun_cons_fst s e r : fst (lrun s (e :: r)) = fst (lrun (fst (lstep s e)) r).
+Proof. cbn [lrun]. destruct (lstep s e) as [s1 o]. cbn [fst]. destruct (lrun s1 r). reflexivity. Qed.
+
+Lemma pop_update s v bm rest : l_up s = true -> l_pending s = (v, bm, None) :: rest ->
+  let s' := fst (lrun s [LBgRead 0; LBgWrite 0]) in
+  l_pending s' = rest /\ l_up s' = true.
+Proof.
+  intros Hup Hp. cbn zeta. rewrite !lrun_cons_fst. cbn [lrun fst].
+  assert (E1 : fst (lstep s (LBgRead 0)) =
+               set_pending s ((v, bm, Some (vget v (l_maxv s))) :: rest)).
+  { unfold lstep. rewrite Hup. cbn [negb fst]. rewrite Hp. reflexivity. }
+  rewrite E1. set (s1 := set_pending s _).
+  assert (Hup1 : l_up s1 = true) by exact Hup.
+  unfold lstep. rewrite Hup1. cbn [negb]. cbn [s1 set_pending l_pending nth_remove].
+  destruct (vget v (l_maxv s) <? bm); cbn; auto.
+Qed.
+
+Lemma run_app s a b : fst (lrun s (a ++ b)) = fst (lrun (fst (lrun s a)) b).
+Proof.
+  revert s; induction a as [|e a IH]; intro s; [reflexivity|].
+  cbn [app lrun]. destruct (lstep s e) as [s1 o]. specialize (IH s1).
+  destruct (lrun s1 (a ++ b)) as [s2 out] eqn:E1. destruct (lrun s1 a) as [s3 out3] eqn:E2. cbn [fst] in *.
+  exact IH.
+Qed.
+
+Lemma updates_drain bms : forall s v rest0, l_up s = true ->
+  l_pending s = map (fun bm => (v, bm, None)) bms ++ rest0 ->
+  let s' := fst (lrun s (concat (map (fun _ : N => [LBgRead 0; LBgWrite 0]) bms))) in
+  l_pending s' = rest0 /\ l_up s' = true.
+Proof.
+  induction bms as [|bm bms IH]; intros s v rest0 Hup Hp; [cbn; auto|].
+  cbn [map concat]. rewrite run_app. cbn [map app] in Hp.
+  destruct (pop_update s v bm _ Hup Hp) as [H1 H2]. cbn zeta in H1, H2.
+  apply (IH _ v rest0 H2 H1).
+Qed.
+
+Lemma req_no_pending q s : l_up s = true -> l_pending s = [] ->
+  let s' := fst (lrun s (expand_req q)) in l_pending s' = [] /\ l_up s' = true.
+Proof.
+  intros Hup Hp. destruct q as [v n|v bms|v l]; cbn [expand_req].
+  - cbn [lrun]. unfold lstep. rewrite Hup. cbn [negb]. destruct (n =? 0); [cbn; auto|].
+    unfold l_alloc. destruct (negb (l_next s =? 0)); cbn; auto.
+  - change (LIngest v bms :: ?x) with ([LIngest v bms] ++ x). rewrite run_app.
+    set (s1 := fst (lrun s [LIngest v bms])).
+    assert (H1 : l_up s1 = true /\ l_pending s1 = map (fun bm => (v, bm, None)) bms ++ []).
+    { unfold s1. cbn [lrun]. unfold lstep. rewrite Hup. cbn. rewrite Hp. cbn. rewrite app_nil_r. auto. }
+    destruct H1 as [A B]. apply (updates_drain bms s1 v [] A B).
+  - cbn [lrun]. unfold lstep. rewrite Hup. cbn [negb].
+    destruct (vget v (l_maxv s) <? l); [cbn; auto|]. destruct (aget v (l_maxv s)); cbn; auto.
+Qed.
+
+Lemma reqs_no_pending qs : forall s, l_up s = true -> l_pending s = [] ->
+  let s' := fst (lrun s (expand_reqs qs)) in l_pending s' = [] /\ l_up s' = true.
+Proof.
+  induction qs as [|q qs IH]; intros s Hup Hp; [cbn; auto|].
+  unfold expand_reqs. cbn [map concat]. rewrite run_app.
+  destruct (req_no_pending q s Hup Hp) as [A B]. cbn zeta in A, B. apply (IH _ B A).
+Qed.
+
+Lemma expand_live qs : forallb live_event (expand_reqs qs) = true.
+Proof.
+  induction qs as [|q qs IH]; [reflexivity|]. unfold expand_reqs in *. cbn [map concat]. rewrite forallb_app, IH, andb_true_r.
+  destruct q as [v n|v bms|v l]; cbn [expand_req forallb live_event]; auto.
+  induction bms as [|b r IHb]; [reflexivity|]. cbn [map concat app forallb live_event andb]. cbn in IHb. exact IHb.
+Qed.
+
+(* label_fresh without proviso, for acknowledged requests of the repaired code *)
+Lemma label_fresh_acked qs v n : n <> 0 ->
+  let s := fst (lrun l_fresh (expand_reqs qs)) in
+  exists b e, snd (lstep s (LAlloc v n)) = Some (b, e) /\ forall l, In l (l_present s) -> l < b.
+Proof.
+  intro Hn. apply label_fresh_live; [apply expand_live|exact Hn|].
+  now destruct (reqs_no_pending qs l_fresh eq_refl eq_refl).
+Qed.
